@@ -298,7 +298,7 @@ i8i8
 	@lengthOf(
 a1)
 	, } ")).
-Eval vm_compute in ("<<<M1332>>>" ++ check (runes_of_ascii "options {
+Eval vm_compute in ("<<<M1329>>>" ++ check (runes_of_ascii "options {
     FixedStringPadFromLeft = true;
     FixedStringPadChar = '0';
 }
@@ -346,8 +346,7 @@ root packet Ack {
         173 : Cancel,
         4 : Leg,
     },
-    u16 Ref @calculatedFrom(""CR\
-C32""),
+    u16 Ref @calculatedFrom(""CRC32""),
 }
 ")).
 Eval vm_compute in ("<<<M237>>>" ++ check (runes_of_ascii "root
@@ -622,50 +621,52 @@ root packet Order {
 C32""),
 }
 ")).
-Eval vm_compute in ("<<<M1743>>>" ++ check (runes_of_ascii "// top
-packet A {
-    // c2
-    u8 a,// c5
-}// c6a
-
-// c6b
-packet B {
-    // c9
-    u16 b,
-}// c13a
-
-// c13b
-packet C {
-    // c16
-    u32 c,// c19a
-}
-
-// c20
-root packet M {
-    u16 Kc,
-    // c27
-    u16 Kb,// c30
-    u16 Ka,
-    match Kc as X {
-        // c38
-        9 : A,
-        10 : B,
-    },
-    match Kb as Y {
-        2 : C,
-        // c57
-        1 : A,
-    },// c63a
-    // c63b
-    match Ka as Z {
-        // c68
-        1 : B,
-    },// c74
-    A,// c76
-    B,
-    // c78
-    C,// c80
-}")).
+Eval vm_compute in ("<<<M1119>>>" ++ check (runes_of_ascii "// top
+root // c0
+packet // c1
+_x // c2
+{ // c3
+match // c4
+Foo // c5
+as // c6
+Z9_ // c7
+{ // c8
+""a	b"" // c9
+: // c10
+Pad // c11
+, // c12
+} // c13
+, // c14
+repeat // c15
+x // c16
+`line1
+line2` // c17
+, // c18
+@rightPad // c19
+( // c20
+' ' // c21
+) // c22
+@calculatedFrom( // c23
+""a\\"" // c24
+) // c25
+metadata // c26
+MetaDataX // c27
+, // c28
+@tag( // c29
+0 // c30
+) // c31
+Logon // c32
+int // c33
+`` // c34
+, // c35
+} // c36
+options // c37
+{ // c38
+T // c39
+= // c40
+'\x00' // c41
+} // c42
+")).
 Eval vm_compute in ("<<<M140>>>" ++ check (runes_of_ascii "
 root packet int{	repeat
     float tag , char[] roots
@@ -773,44 +774,35 @@ root packet T {
     // c31b
     string stringy @calculatedFrom(""\n"") `u8 x,`,// c38
 }// c39")).
-Eval vm_compute in ("<<<M1462>>>" ++ check (runes_of_ascii "
+Eval vm_compute in ("<<<M1481>>>" ++ check (runes_of_ascii "MetaData BodyLength{
 
-  options {
+    uint16
+leftPad`" ++ [233]%N ++ runes_of_ascii "`	// a // b
 
-LittleEndian  = true ;  }
-packet Logon
-{
-u8	x	, } 
-packet 
-Logout
-{ 
-u16	reason	,}  root  packet
+  ,
+    uint8x
+    asx
+    , len
 
-Frame {u16
-	Kind
-,u16
-    Kind2 ,
-    match
-Kind 
-as Body {1
-: Logon ,	[2  ,
-	3,4]
-:	Logout ,
-
-100  : Logon	,
-    }  ,
-match Kind2 as
-
-Trailer
+    lengthOf	`// not a comment`
+, string
+uint8x 
+`doc` ,
+}  options
 	{
 
-0 :
-	Logout	,
+i8i8
+	=
+0 lengthOf=
+0123456789
 
-} 
-,}
-
-")).
+; }packet
+	uint8x {
+    @lengthOf( pack)	float64
+	u8x @lengthOf( 
+asx 	 //x
+	) ,
+} ")).
 Eval vm_compute in ("<<<M1370>>>" ++ check (runes_of_ascii "options {
     LittleEndian = true;
 }
